@@ -457,7 +457,7 @@ pub fn run(ctx: &Ctx) -> Outcome {
     out.absorb(tape_search(ctx, "main", &cfg, check, describe));
     if !out.failed() && ctx.tier == Tier::Thorough {
         for (target, text) in [("obj_binary", false), ("obj_text", true)] {
-            let fr = libfuzzer(ctx, target, 2_000_000, 1024, 8);
+            let fr = libfuzzer(ctx, target, 800_000, 1024, 8);
             out.extra.insert(format!("libfuzzer_{target}_runs"), json!(fr.runs));
             if let Some(s) = fr.skipped {
                 out.extra.insert("libfuzzer_skipped".into(), json!(s));
